@@ -230,7 +230,7 @@ func raceCancelScenario(a, b string, gated bool) func() {
 			w.Invoke(ca)
 			w.Invoke(cb)
 		})
-		mc.GoNamed("cancel", func() { ca.Cancel(context.Canceled) })
+		mc.GoLow("cancel", func() { ca.Cancel(context.Canceled) })
 		if gated {
 			mc.GoNamed("gates", func() { w.Open("n1"); w.Open("n2") })
 		}
